@@ -225,7 +225,26 @@ func main() {
 	seed := flag.Int64("seed", 1, "PRNG seed")
 	out := flag.String("out", "", "report path")
 	dir := flag.String("dir", os.Getenv("RLV_SCRATCH"), "scratch directory")
+	replay := flag.String("replay", "", "replay file of a finding: the cases are regenerated from its seed and budget, exit 1 if its signature comes up again")
 	flag.Parse()
+	replaySig := ""
+	if *replay != "" {
+		var f struct {
+			Sig    string `json:"signature"`
+			Oracle string `json:"oracle"`
+			Seed   int64  `json:"seed"`
+			N      int    `json:"n"`
+		}
+		b, err := os.ReadFile(*replay)
+		if err != nil || json.Unmarshal(b, &f) != nil || f.N == 0 {
+			fmt.Fprintln(os.Stderr, "replay file without seed and budget")
+			os.Exit(2)
+		}
+		if *prop == "" {
+			*prop = f.Oracle
+		}
+		*seed, *n, replaySig = f.Seed, f.N, f.Sig
+	}
 	t0 := time.Now()
 	rep = report{Prop: *prop, Seed: *seed, Classes: map[string]int{}, BySig: map[string]int{}, Decided: map[string]int{}}
 	r := rand.New(rand.NewSource(*seed))
@@ -247,6 +266,12 @@ func main() {
 		os.WriteFile(*out, b, 0o644)
 	} else {
 		fmt.Println(string(b))
+	}
+	if replaySig != "" {
+		if rep.BySig[replaySig] > 0 {
+			os.Exit(1)
+		}
+		return
 	}
 	if len(rep.Findings) > 0 {
 		os.Exit(1)
